@@ -32,8 +32,10 @@ RunSeqs(stacks) == {<<Run1(1, st, 0)>> : st \in stacks}
 Line1(v, runs) == [voice |-> v, runs |-> runs]
 SimpleCue(s, e) == [s |-> s, e |-> e, id |-> 0, notes |-> <<>>, set |-> NoSet, region |-> 0, lines |-> <<Line1(0, <<Run1(1, <<>>, 0)>>)>>]
 
-R1 == [id |-> 1, lines |-> 3, width |-> 1, scroll |-> 1]
-R2 == [id |-> 2, lines |-> 0, width |-> 0, scroll |-> 0]
+R1 == [id |-> 1, lines |-> 3, width |-> 1, scroll |-> 1, anchor |-> 1, viewport |-> 2]
+R2 == [id |-> 2, lines |-> 0, width |-> 0, scroll |-> 0, anchor |-> 0, viewport |-> 0]
+R3 == [id |-> 2, lines |-> 0, width |-> 0, scroll |-> 0, anchor |-> 2, viewport |-> 0]
+R4 == [id |-> 1, lines |-> 0, width |-> 0, scroll |-> 0, anchor |-> 0, viewport |-> 1]
 BaseG == [tsmap |-> <<>>, css |-> <<>>, regions |-> <<>>, cues |-> <<>>]
 
 \* the region reference is combined with every cue-setting subset (a setting may not hide the region)
@@ -42,7 +44,7 @@ TruthsH == {[tsmap |-> tm, css |-> cs, regions |-> rg, cues |-> <<[SimpleCue(0, 
               \* wide; the harness writes and reads the real value)
               tm \in {<<>>, <<[local |-> 0, mpegts |-> 900000]>>, <<[local |-> 3723004, mpegts |-> 123456789]>>, <<[local |-> 1000, mpegts |-> 2147483647]>>,
                       <<[local |-> 10000, mpegts |-> 0]>>},
-              cs \in {<<>>, <<1>>, <<1, 2>>}, rg \in {<<>>, <<R1>>, <<R1, R2>>, <<R2>>}, rr \in {0, 1, 2}, st \in Sets}
+              cs \in {<<>>, <<1>>, <<1, 2>>}, rg \in {<<>>, <<R1>>, <<R1, R2>>, <<R2>>, <<R4, R3>>}, rr \in {0, 1, 2}, st \in Sets}
 TruthsHOK == {t \in TruthsH : t.cues[1].region = 0 \/ \E i \in DOMAIN t.regions : t.regions[i].id = t.cues[1].region}
 
 TruthsC == {[BaseG EXCEPT !.cues = <<[s |-> tp[1], e |-> tp[2], id |-> id, notes |-> nt, set |-> st, region |-> 0, lines |-> ls]>>] :
